@@ -12,8 +12,9 @@ import subprocess
 import sys
 
 SEED = sys.argv[1] if len(sys.argv) > 1 else '/tmp/seed-out'
-BASE_NINJA = '/repo/_build/ninja'
-NW = 1
+BASE_NINJA = os.environ.get('BASE_NINJA', '/repo/_build/ninja')      # reference binary for the "without the change" run
+MAKE_NINJA = '/repo/_build/ninja'
+NW = int(os.environ.get('NW', '1'))
 
 
 def sh(cmd, cwd=None, timeout=600):
@@ -28,7 +29,7 @@ def setup(k):
     rc, out = sh('git -C /repo worktree add -f %s HEAD' % wt)
     assert rc == 0, out
     rc, out = sh('cmake -G Ninja -B _build -DCMAKE_BUILD_TYPE=Release -DGTest_DIR=/root/miniconda/lib/cmake/GTest '
-                 '-DCMAKE_MAKE_PROGRAM=%s . >/dev/null && %s -C _build ninja ninja_test' % (BASE_NINJA, BASE_NINJA), cwd=wt, timeout=1200)
+                 '-DCMAKE_MAKE_PROGRAM=%s . >/dev/null && %s -C _build ninja ninja_test' % (MAKE_NINJA, MAKE_NINJA), cwd=wt, timeout=1200)
     assert rc == 0, out[-2000:]
     return wt
 
@@ -49,7 +50,7 @@ def verify(wt, sid):
     if rc != 0:
         res['error'] = 'patch does not apply: ' + out[-300:]
         return res
-    rc, out = sh('%s -C _build ninja ninja_test' % BASE_NINJA, cwd=wt, timeout=1200)
+    rc, out = sh('%s -C _build ninja ninja_test' % MAKE_NINJA, cwd=wt, timeout=1200)
     res['builds'] = rc == 0
     if rc != 0:
         res['error'] = out[-500:]
